@@ -116,14 +116,16 @@ inductive Mode where
 
 /-- result classes (the harness maps error messages to the same enum) -/
 inductive Res where
-  | ok | root | noparent | exists_ | notempty | unsupported | notfound | invalid | sqlerr | rmdir
+  | ok | root | noparent | exists_ | notempty | unsupported | notfound | invalid | sqlerr | rmdir | mergefail
   deriving DecidableEq, Repr
 
 def noDir : Dir := ⟨false, []⟩
 
 /-! ### the manifest table (manifest.rs) -/
 
-/-- `manifest_contains_object`: filter `object_id = '{}'` by interpolation — a quote breaks the SQL text -/
+/-- `manifest_contains_object`: filter `object_id = '{}'` by interpolation — a quote breaks the SQL text.
+    (Modelled: any quote = error.  The real parser fails on an ODD number of quotes; with an even number >= 2 the
+    filter text is silently cut after the first literal — recorded finding, not modelled, not generated.) -/
 def containsObject (st : St) (oid : Name) : Except Res Bool :=
   if quote ∈ oid then .error .sqlerr else .ok (st.rows.any (fun r => r.oid = oid))
 
@@ -206,7 +208,8 @@ def addDir (st : St) (d : Dir) : St :=
   if d.hashed = false ∧ d ∈ st.dirs then st else { st with dirs := st.dirs ++ [d] }
 
 /-- manifest.rs `create_empty_table`: typed lookup, then the reserved file, then the merge-insert
-    (which can still fail on a namespace row with the same object id, leaving the directory behind) -/
+    (which can still fail on a namespace row with the same object id, leaving the directory behind; the
+    error text of that failure is not one `insert_into_manifest` recognises, so it surfaces as an IO error) -/
 def mCreateTable (dual : Bool) (st : St) (id : List Name) : St × Res :=
   if id = [] then (st, .invalid) else
   match queryTyped st (tableOid id) .tbl with
@@ -216,7 +219,7 @@ def mCreateTable (dual : Bool) (st : St) (id : List Name) : St × Res :=
     let st1 := addDir st (encDir (tableDir dual id))
     match insertRow st1 ⟨tableOid id, .tbl, tableDir dual id⟩ with
     | some st' => (st', .ok)
-    | none => (st1, .exists_)
+    | none => (st1, .mergefail)
 
 /-- the location checks of manifest.rs `register_table` -/
 def locOk (loc : Name) : Bool :=
@@ -436,7 +439,7 @@ inductive Out where
   | bool (b : Bool)
   | names (l : List LName)
   | pages (l : List (List LName)) (more : Bool)
-  deriving Repr
+  deriving Repr, DecidableEq
 
 def outOfExists : Except Res Bool → Out
   | .ok b => .bool b
